@@ -336,6 +336,11 @@ pub fn parse_graph_edge(edge: &Pair<Rule>, from: &str) -> Result<GraphEdge, Comp
     let cost = match inner.find_first_tagged("cost") {
         Some(cost) => {
             let parsed = cost.as_str().to_string().parse::<f64>();
+            //a literal with too many digits parses to infinity, which is not a number
+            //a model can carry
+            if matches!(parsed, Ok(value) if !value.is_finite()) {
+                return err_unexpected_token!("found {}, the number is too large", cost);
+            }
             if let Err(err) = parsed {
                 let error = ParseError::UnexpectedToken(format!(
                     "Expected number but got: {}, error: {}",
@@ -428,6 +433,10 @@ pub fn parse_constraint(constraint: &Pair<Rule>) -> Result<PreConstraint, Compil
 pub fn parse_number(number: &Pair<Rule>) -> Result<Primitive, CompilationError> {
     match number.as_rule() {
         Rule::float => match number.as_str().parse::<f64>() {
+            //a literal with too many digits parses to infinity
+            Ok(parsed) if !parsed.is_finite() => {
+                err_unexpected_token!("found {}, the number is too large", number)
+            }
             Ok(number) => Ok(Primitive::Number(number)),
             Err(_) => err_unexpected_token!("found {}, expected number", number),
         },
